@@ -115,6 +115,7 @@ class World:
         self.abort_at = sched.get('abort_at')
         self.latency = float(sched.get('latency') or 1e-3)
         self.tape_in = list(tape) if tape is not None else None
+        self.last_op = [None] * nranks
         self.tape_pos = 0
         self.tape = []
         self.sems = [threading.Semaphore(0) for _ in range(nranks)]
@@ -199,7 +200,10 @@ class World:
         if self.strategy == 'priority':
             return self.speed[r]
         d = -math.log(1.0 - self.draw() * 0.999999) * self.speed[r]
-        if self.stall_p > 0.0 and self.draw() < self.stall_p:
+        p = self.stall_p
+        if p > 0.0 and self.last_op[r] in ('Alltoall', 'Allgather', 'h5open', 'h5write', 'h5close', 'fs'):
+            p = min(0.9, 4.0 * p)       # stalls land preferentially right after a layout change or file operation
+        if p > 0.0 and self.draw() < p:
             d += 10.0 + 990.0 * self.draw()
             self.count_fault('stall')
         return d
@@ -306,6 +310,7 @@ class World:
         if self.gseq > self.max_events:
             self._fail(Violation('event-cap', self.gseq))
         self.log.append((self.gseq, round(self.T[me], 9), me, kind) + tuple(detail))
+        self.last_op[me] = detail[2] if (kind == 'coll' and len(detail) > 2) else kind
         if (self.abort_at is not None and not self.job_aborted and self.gseq >= self.abort_at
                 and self.no_abort_depth == 0):
             self.job_aborted = True
